@@ -31,7 +31,11 @@ class Script:
     out = None
 
 
-def ask(iver, all_metrics, answers, no_colors=True):
+# numerically equal spellings of the version argument (the docstring documents "2 or 3.0/3.1 or 4")
+VERSION_SPELLINGS = {"2": [2, 2.0], "3.0": [3.0, 3], "3.1": [3.1], "4": [4.0, 4]}
+
+
+def ask(iver, all_metrics, answers, no_colors=True, spelling=0):
     """returns dict(outcome='result'|'eof'|'raised:<T>', vector, consumed, asked=[(metric_name, n)], stdout)"""
     core.impl()
     inter = importlib.import_module("cvss.interactive")
@@ -44,7 +48,8 @@ def ask(iver, all_metrics, answers, no_colors=True):
     try:
         with contextlib.redirect_stdout(buf):
             try:
-                res["vector"] = inter.ask_interactively(VERSION_ARG[iver], all_metrics, no_colors)
+                varg = VERSION_SPELLINGS[iver][spelling % len(VERSION_SPELLINGS[iver])]
+                res["vector"] = inter.ask_interactively(varg, all_metrics, no_colors)
                 res["outcome"] = "result"
             except EOFError:
                 res["outcome"] = "eof"
